@@ -881,14 +881,51 @@ Qed.
 Lemma remove_unique hs d : hashes_unique d -> hashes_unique (remove_hashes hs d).
 Proof. unfold hashes_unique, remove_hashes. cbn [blobs]. apply NoDup_map_filter. Qed.
 
+Lemma own_hashes_app_l bl extra h : In h (map b_hash (filter b_mine bl)) -> In h (map b_hash (filter b_mine (bl ++ extra))).
+Proof. intro H. rewrite filter_app, map_app. apply in_or_app. left. exact H. Qed.
+
+Lemma add_orphans_spec now sizes hs : forall bl, NoDup (map b_hash bl) ->
+  NoDup (map b_hash (add_orphans now sizes hs bl)) /\ exists extra, add_orphans now sizes hs bl = bl ++ extra.
+Proof.
+  induction hs as [|h r IH]; intros bl Hn; simpl; [split; [exact Hn | exists []; rewrite app_nil_r; reflexivity]|].
+  destruct (mem h (map b_hash bl)) eqn:E; [apply IH; exact Hn|].
+  apply mem_false in E.
+  destruct (IH (bl ++ [mkBlob h (fsize sizes h) now false true])) as [A [extra B]].
+  - rewrite map_app. simpl. eapply Permutation_NoDup; [apply Permutation_cons_append|]. constructor; assumption.
+  - split; [exact A|]. exists ([mkBlob h (fsize sizes h) now false true] ++ extra). rewrite B, <- app_assoc. reflexivity.
+Qed.
+
+Lemma setup_rows_hashes dk bl : map b_hash (map (setup_row dk) bl) = map b_hash bl.
+Proof. rewrite map_map. reflexivity. Qed.
+
+Lemma setup_rows_own dk bl : map b_hash (filter b_mine (map (setup_row dk) bl)) = map b_hash (filter b_mine bl).
+Proof. induction bl as [|b t IH]; simpl; [reflexivity|]. destruct (b_mine b); simpl; rewrite IH; reflexivity. Qed.
+
+(* a restart keeps every row's ownership: own hashes stay own, hashes stay unique, files are not touched *)
+Lemma setup_keeps_own now sizes d h : hashes_unique d -> In h (own_hashes d) ->
+  In h (own_hashes (setup now sizes d)) /\ hashes_unique (setup now sizes d) /\ disk (setup now sizes d) = disk d.
+Proof.
+  unfold hashes_unique, own_hashes, setup. cbn [blobs disk]. intros Hn Ho.
+  destruct (add_orphans_spec now sizes (disk d) (map (setup_row (disk d)) (blobs d))) as [A [extra B]];
+    [rewrite setup_rows_hashes; exact Hn|].
+  split; [|split; [exact A | reflexivity]].
+  rewrite B. apply own_hashes_app_l. rewrite setup_rows_own. exact Ho.
+Qed.
+
+Lemma restore_list_incl hs : forall dk h, In h dk -> In h (restore_list hs dk).
+Proof.
+  induction hs as [|x r IH]; intros dk h H; simpl; [exact H|]. apply IH.
+  destruct (mem x dk); [exact H | apply in_or_app; left; exact H].
+Qed.
+
 (* over every history: a blob that is the user's own (and that the user does not remove himself) is never in any
-   deletion list, keeps its row, and keeps its file *)
+   deletion list and keeps its row; it keeps its file unless somebody moved the file away *)
 Lemma history_never_own ops : forall d h, hashes_unique d -> In h (own_hashes d) -> ~ In h (user_deleted ops) ->
   (forall dl, In dl (fst (run ops d)) -> ~ In h dl) /\ In h (own_hashes (snd (run ops d))) /\
-  (In h (disk d) -> In h (disk (snd (run ops d)))).
+  (In h (disk d) -> ~ In h (hidden ops) -> In h (disk (snd (run ops d)))).
 Proof.
   induction ops as [|o r IH]; intros d h Hn Ho Hu; [simpl; tauto|].
-  destruct o as [net limit|cl nl|b|hs|]; cbn [run]; cbn [user_deleted] in Hu.
+  destruct o as [net limit|cl nl|b|hs|hs|hs|now sizes|]; cbn [run]; cbn [user_deleted] in Hu; cbn [hidden].
   - pose proof (pass_keeps_own net limit d h Hn Ho) as [A1 [A2 A3]].
     pose proof (clean_pass_unique net limit d Hn) as Hn1.
     destruct (clean_pass net limit d) as [dl d1]. cbn [fst snd] in *.
@@ -910,6 +947,21 @@ Proof.
     specialize (IH (remove_hashes hs d) h (remove_unique hs d Hn) A1 Hr).
     destruct (run r (remove_hashes hs d)) as [tr d2]. cbn [fst snd] in *.
     destruct IH as [I1 [I2 I3]]. auto.
+  - specialize (IH (hide_files hs d) h Hn Ho Hu).
+    destruct (run r (hide_files hs d)) as [tr d2]. cbn [fst snd] in *.
+    destruct IH as [I1 [I2 I3]]. split; [exact I1|]. split; [exact I2|].
+    intros Hd Hh. apply I3; [|intro X; apply Hh, in_or_app; right; exact X].
+    unfold hide_files. cbn [disk]. apply filter_In. split; [exact Hd|].
+    assert (E : mem h hs = false) by (apply mem_false; intro X; apply Hh, in_or_app; left; exact X).
+    rewrite E. reflexivity.
+  - specialize (IH (restore_files hs d) h Hn Ho Hu).
+    destruct (run r (restore_files hs d)) as [tr d2]. cbn [fst snd] in *.
+    destruct IH as [I1 [I2 I3]]. split; [exact I1|]. split; [exact I2|].
+    intros Hd Hh. apply I3; [|exact Hh]. unfold restore_files. cbn [disk]. apply restore_list_incl. exact Hd.
+  - pose proof (setup_keeps_own now sizes d h Hn Ho) as [A1 [A2 A3]].
+    specialize (IH (setup now sizes d) h A2 A1 Hu).
+    destruct (run r (setup now sizes d)) as [tr d2]. cbn [fst snd] in *.
+    destruct IH as [I1 [I2 I3]]. split; [exact I1|]. split; [exact I2|]. rewrite A3 in I3. exact I3.
   - apply IH; assumption.
 Qed.
 
@@ -920,14 +972,13 @@ Lemma run_app ops1 : forall ops2 d,
   (fst (run ops1 d) ++ fst (run ops2 (snd (run ops1 d))), snd (run ops2 (snd (run ops1 d)))).
 Proof.
   induction ops1 as [|o r IH]; intros ops2 d; [simpl; apply surjective_pairing|].
-  destruct o as [net limit|cl nl|b|hs|]; cbn [run app].
+  destruct o as [net limit|cl nl|b|hs|hs|hs|now sizes|]; cbn [run app]; try apply IH.
   - destruct (clean_pass net limit d) as [dl d1]. rewrite IH.
     destruct (run r d1) as [tr d2]. reflexivity.
   - destruct (clean cl nl d) as [[dl1 dl2] d1]. rewrite IH.
     destruct (run r d1) as [tr d2]. reflexivity.
   - rewrite IH. destruct (run r (add_blob b d)) as [tr d2]. reflexivity.
   - rewrite IH. destruct (run r (remove_hashes hs d)) as [tr d2]. reflexivity.
-  - apply IH.
 Qed.
 
 (* ------------------------------------------------------------------------------------------ *)
